@@ -430,6 +430,11 @@ void Exec::live_teardown() {
 }
 bool Exec::live_key_elsewhere(Inst *S, int kind, long ki) { for (auto &i : insts) if (&i != S && i.live_srcs.count({kind, ki})) return true; return false; }
 
+// the library waits for running tasks when the loop stops: never let it wait for a task that is still latched
+void Exec::release_all_tasks() {
+    for (int k = 0; k < 3; k++) { if (task_used[k]) { sem_post(&task_latch[k]); for (auto &i : insts) { auto it = i.live_srcs.find({M_SRC_TYPE_TASK, (long)k}); if (it != i.live_srcs.end()) it->second.fired = true; } } }
+}
+
 void Exec::live_src_op(const Op &op, Inst *S) {
     int kind = (int)op.a; long ki = ((op.b % 3) + 3) % 3;
     if (kind < M_SRC_TYPE_SGN || kind > M_SRC_TYPE_THRESH) return;
